@@ -170,6 +170,13 @@ def run(tier, seed, model_ok, spec_ok, replay=None):
                 if pathy_upper(a) or (isinstance(a, list) and any(pathy_upper(x) for x in a)) or \
                         (isinstance(a, dict) and any(pathy_upper(x) for x in a.values())):
                     flags.append("mapping-key-path-not-lowercase")
+        # a data path as a VALUE of a mapping argument / of items_contain, next to a key that contains "path": the mapping is written
+        # escaped (so that it is not read as a path spec) and from_spec does not look inside an un-escaped mapping: known finding D50
+        flags2 = []
+        for l in t.leaves():
+            for a in list(l.args) + ([l.kwargs] if l.method == "items_contain" else []):
+                if isinstance(a, dict) and any(isinstance(k, str) and "path" in k for k in a) and any(isinstance(x, PathT) for x in a.values()):
+                    flags2.append("path-value-in-mapping-with-path-like-key")
         out_js = E.run_outcome(lambda: t.build().to_json_like())
         out_rt = E.run_outcome(lambda: impl_roundtrip(t, probes)[1][:3])
         try:
@@ -187,7 +194,7 @@ def run(tier, seed, model_ok, spec_ok, replay=None):
         full = E.run_outcome(lambda: impl_roundtrip(t, probes, used=True))
         dist["ok" if full[0] == "ok" else "exc:" + full[1]] += 1
         if full[0] != "ok":
-            direct.append({"kind": "direct", "flags": flags, "what": f"round trip raised {full[1]}", "term": t.descr()[:400]})
+            direct.append({"kind": "direct", "flags": flags + flags2, "what": f"round trip raised {full[1]}", "term": t.descr()[:400]})
         elif not all(full[1][1]):
             names = ["json-stable", "rebuilt == original", "second serialisation identical", "same behaviour"]
             bad = [nm for nm, okk in zip(names, full[1][1]) if not okk]
@@ -209,4 +216,6 @@ def run(tier, seed, model_ok, spec_ok, replay=None):
 
 def matches_known(known, case):
     m = known.get("match", {})
-    return "flag" in m and m["flag"] in case.get("flags", [])
+    if "flag" not in m or m["flag"] not in case.get("flags", []):
+        return False
+    return "what" not in m or case.get("what") == m["what"]
